@@ -70,6 +70,7 @@ pub fn seed_scenario(t: &PoolText, seed: u64, h: u64, n: u64) -> Scenario {
         canary: true,
         clock: cp.0,
         pid: cp.1,
+        reuse_config: false,
     };
     Scenario {
         property: "C20".into(),
@@ -113,6 +114,7 @@ pub fn batch_scenario(pool: &Pool, t: &PoolText, seed: u64, n: u64) -> Scenario 
         canary: true,
         clock: cp.0,
         pid: cp.1,
+        reuse_config: false,
     };
     ops.push(Op::Build { node, tag: "check".into() });
     Scenario { property: "C20".into(), seed, label: format!("batch:{}:pos{pos}", t.name), ops }
@@ -158,7 +160,7 @@ pub fn order_scenario(pool: &Pool, t: &PoolText, seed: u64, n: u64) -> Scenario 
     } else {
         NodeKind::Api { calls }
     };
-    let node = NodeSpec { kind, cwd: String::new(), env: noise(&mut rng), hashseed: rng.below(64), faults: vec![], leak: 0, canary: !use_cli, clock: cp.0, pid: cp.1 };
+    let node = NodeSpec { kind, cwd: String::new(), env: noise(&mut rng), hashseed: rng.below(64), faults: vec![], leak: 0, canary: !use_cli, clock: cp.0, pid: cp.1, reuse_config: false };
     ops.push(Op::Build { node, tag: "check".into() });
     Scenario { property: "C20".into(), seed, label: format!("order:{}", t.name), ops }
 }
@@ -169,7 +171,7 @@ pub fn run(engine: &Engine, tier: &str, seed: u64) -> i32 {
     let pool = Pool::load();
     let nseeds: u64 = if thorough { 64 } else { 8 };
     let nbatch: u64 = if thorough { 5000 } else { 260 };
-    let norder: u64 = if thorough { 3000 } else { 160 };
+    let norder: u64 = if thorough { 3000 } else { 200 };
     // very large grammars take part in the seed sweep only in the thorough tier
     let big = |t: &PoolText| t.bytes.len() > 5000;
     let mut scs: Vec<Scenario> = Vec::new();
@@ -184,11 +186,14 @@ pub fn run(engine: &Engine, tier: &str, seed: u64) -> i32 {
     let seed_runs = scs.len();
     let mut rng = Rng::derive(seed, 42);
     let targets: Vec<&PoolText> = pool.all.iter().filter(|t| thorough || !big(t) || t.class != Class::Valid).collect();
+    // every target takes part in batches and in-process orders (systematically first, then at random)
     for i in 0..nbatch {
-        scs.push(batch_scenario(&pool, *rng.pick(&targets), seed, i));
+        let t = if (i as usize) < 2 * targets.len() { targets[i as usize % targets.len()] } else { *rng.pick(&targets) };
+        scs.push(batch_scenario(&pool, t, seed, i));
     }
     for i in 0..norder {
-        scs.push(order_scenario(&pool, *rng.pick(&targets), seed, i));
+        let t = if (i as usize) < 3 * targets.len() { targets[i as usize % targets.len()] } else { *rng.pick(&targets) };
+        scs.push(order_scenario(&pool, t, seed, i));
     }
     let outs: Vec<Outcome> = engine.par_map(&scs, |ctx, sc| run_scenario(ctx, sc));
     let mut rep = Reporter::new("C20");
